@@ -88,6 +88,8 @@ KANI_BOUNDS = {
     'dense_step_small': 'DenseVecStorage<u16>: every well-formed state with <= 2 elements over indices < 3; one insert or remove; then every slot re-read and the dense invariant re-checked',
     'dense_step': 'DenseVecStorage<u16>: every well-formed state with <= 3 elements over indices < 4; one arbitrary raw operation (insert/remove/get_mut/get); whole-view re-read + dense invariant + dense slice is a permutation',
     'dense_clean': 'DenseVecStorage<u16>: every well-formed state with <= 3 elements over indices < 4; clean() empties all three tables',
+    'vec_step_small': 'VecStorage<u16>: every vector of length <= 2 with any occupied subset; one insert or remove over indices < 3 (may grow the vector); every slot re-read; then clean(true mask)',
+    'default_vec_step_small': 'DefaultVecStorage<u16>: every vector of length <= 2 whose unoccupied slots hold Default; one insert or remove over indices < 3; occupied = value, unoccupied = Default; then clean()',
     'vec_step': 'VecStorage<u16>: every vector of length <= 4 with any occupied subset; one arbitrary raw operation; slice view agrees at occupied indices; then clean()',
     'default_vec_step': 'DefaultVecStorage<u16>: every vector of length <= 4 whose unoccupied slots hold Default; one arbitrary raw operation; occupied = value, unoccupied = Default; then clean()',
     'own_vec': 'VecStorage<Tok> destructor ledger: <= 2 symbolic inserts over indices < 3, one arbitrary operation (insert/remove/drop/overwrite), clean(true mask), drop: each token dropped xor handed back exactly once',
@@ -209,6 +211,9 @@ def main(argv):
         # failed precondition/assertion by assuming it): its remaining obligations are not proved, only not-refuted
         failed_fns = {}
         for ob, diags in out['failed'].items():
+            if ob not in g.obligations:
+                # never ignore a failure silently: a diagnostic that maps to no registered obligation leaves the run undecided
+                undecided.append('verifier failure that maps to no registered obligation: %s: %s' % (ob, (diags[0].get('message') if diags else '')))
             fnk = g.obligations.get(ob, {}).get('fn')
             if fnk:
                 failed_fns.setdefault(fnk, []).append((ob, diags))
@@ -348,7 +353,9 @@ def main(argv):
             per_function_ms={k: v for k, v in sorted(fn_ms.items()) if v >= 1.0},
             functions_under_contract=cov_items,
             normalisations_applied=sorted(set(cov_norms)),
-            not_under_contract=sorted(set(not_covered)),
+            # a function may be under contract in another unit of the same property: report only what no unit covers
+            not_under_contract=sorted(x for x in set(not_covered)
+                                      if not any(x.startswith(c['file'] + ' :: ') and x.endswith('(lines %d-%d)' % tuple(c['lines'])) for c in cov_items)),
             vacuity_guard=vac,
             bounded=dict(note='BOUNDED stand-in (Kani/CBMC on the real unsafe code); not included in obligations/discharged', cmd=kani_cmd, harnesses=bounded) if bounded else None,
             explanation=cfg.get('explanation', ''),
